@@ -196,9 +196,12 @@ def check_seq(acc, desc, ftype, flops, opts, n, repeat=False):
     import circuitgraph as cg
 
     add_out, init, rem_unl, ignore = opts
+    init = dict(init) if isinstance(init, dict) else init          # a fresh argument object for this case
+    ignore = list(ignore) if isinstance(ignore, list) else ignore
     F = FLOPS[ftype]
     case = {"kind": "seq", "desc": desc, "ftype": ftype, "flops": flops, "n": n,
-            "opts": [add_out, init, rem_unl, ignore], "repeat": repeat}
+            "opts": [add_out, dict(init) if isinstance(init, dict) else init, rem_unl, list(ignore) if isinstance(ignore, list) else ignore],
+            "repeat": repeat}
     c = space.build(desc)
     init_before = dict(init) if isinstance(init, dict) else init
     if repeat:
@@ -234,6 +237,9 @@ def check_seq(acc, desc, ftype, flops, opts, n, repeat=False):
                                              initial_values=init, remove_unloaded=rem_unl)
     except Exception as e:  # noqa: BLE001
         acc.violation("seq", f"raises:{common.exc_name(e)}", case, repr(e))
+        return None
+    if init != init_before or ignore != case["opts"][3]:
+        acc.violation("seq", "argument-object-modified", case, f"initial_values {init_before} -> {init}; ignore_pins {case['opts'][3]} -> {ignore}")
         return None
     names = [("q", fl) for fl in free_q] + [("x", i, t) for t in range(n) for i in data_ins]
     full = refsim.full_mask(nv)
